@@ -454,6 +454,18 @@ def f_abs(eng, s, args, kw):
     return [(sv_float(z3.If(r >= 0, r, -r)), s)]
 
 
+def f_super(eng, s, args, kw):
+    from .values import SuperRef
+    if args:
+        raise Unsupported("super() with arguments")
+    recv, _ = s.env.lookup("self")
+    if recv is None:
+        recv, _ = s.env.lookup("cls")
+    if recv is None or eng.fi.cls_name is None:
+        raise Unsupported("super() outside a method")
+    return [(SuperRef(recv, getattr(eng.fi.module, eng.fi.cls_name)), s)]
+
+
 def f_callable_unsupported(name):
     def f(eng, s, args, kw):
         raise Unsupported(f"builtin {name}")
@@ -466,7 +478,7 @@ FUNCS = {
     "enumerate": f_enumerate, "zip": f_zip, "reversed": f_reversed, "range": f_range,
     "sorted": f_sorted, "max": f_max, "min": f_min, "sum": f_sum, "any": f_any, "all": f_all,
     "iter": f_iter, "next": f_next, "print": f_print, "abs": f_abs,
-    "warnings.warn": f_warn, "_warnings.warn": f_warn,
+    "warnings.warn": f_warn, "_warnings.warn": f_warn, "super": f_super,
 }
 
 
